@@ -13,7 +13,7 @@ LEVEL = "proof"
 
 MANIFEST = {
     "technique": 'Coq proof (induction over file items / regenerations) + differential correspondence model vs code',
-    "text": 'Theorems C01_fixed_point / C01_iterated / C01_tree_fixed_point: for every fresh code model satisfying the boolean well-formedness, every user text and every number of regenerations the model of preserve+createoutput rewrites identical bytes. The model is executed against the real generators on every run. C01_fixed_point_shipped: for the shipped file Test.TEMPLATEStateMachine.cpp the well-formedness hypothesis is itself a theorem for ALL state-machine models with admissible names (Props/C07.v, C07_wf_out_Test_TEMPLATEStateMachine_cpp over the engine model Model/EngineSM.v), so the fixed point holds there without a per-output boolean; for all other generated files the boolean is evaluated on every real output.',
+    "text": 'Theorems C01_fixed_point / C01_iterated / C01_tree_fixed_point: for every fresh code model satisfying the boolean well-formedness, every user text and every number of regenerations the model of preserve+createoutput rewrites identical bytes. The model is executed against the real generators on every run. C01_fixed_point_shipped: for the shipped file Test.TEMPLATEStateMachine.cpp the well-formedness hypothesis is itself a theorem for ALL state-machine models with admissible names (Props/C07.v, C07_wf_out_Test_TEMPLATEStateMachine_cpp over the engine model Model/EngineSM.v), so the fixed point holds there without a per-output boolean; C01_fixed_point_shipped_cs: the same for Test.TEMPLATEStateMachine.cs; C01_fixed_point_shipped_py / _h: for the whole shipped files TEMPLATEStateMachine.py / TEMPLATEStateMachine.h, whose USER tags are all fixed text (hypothesis names_ok_py / names_ok_h, syntactic: alphanumeric names; initial state, per-state transition lists, table cells and the signature strings of the oracle free of the left brace, backslash and CR -- C07_dyn_plain_of_names); for all other generated files the boolean is evaluated on every real output.',
     "note": PRES_NOTE,
 }
 RULE = ("cases = (generator kind, random valid model, random subset of the tag pairs of every generated file filled with user text "
